@@ -101,7 +101,7 @@ pub fn install_hooks(keygen: Rc<RefCell<KeyGen>>, yield_num: u32, yield_den: u32
       }
       let y = ctx::chance(yield_num, yield_den);
       if y {
-        ctx::stat("sched.yield_at_hook");
+        ctx::stat("fault.sched.yield_at_hook");
         ctx::sched(label, 1);
       }
       y
@@ -793,7 +793,7 @@ impl Engine for KsEngine {
   }
   fn required_probes(&self, _p: &str, _tier: &str) -> Vec<String> {
     [
-      "sched.yield_at_hook",
+      "fault.sched.yield_at_hook",
       "probe.overlap_same_object",
       "probe.race_scenario",
       "probe.race_losers",
